@@ -42,8 +42,12 @@ def ones(shape, dtype=None):
     return SymNDArray.from_fn(_shape_arg(shape), lambda idx: v, kind, origin='ones')
 
 
-def array(x, dtype=None):
+def array(x, dtype=None, copy=True, **kw):
+    if kw:
+        raise OutOfReach('numpy.array(%s=...) is not modelled' % sorted(kw)[0])
     if isinstance(x, SymNDArray):
+        if copy is False:
+            raise OutOfReach('numpy.array(copy=False) is not modelled')
         return x.copy()
     if is_scalar(x):
         k = _kind_from_dtype(dtype, kind_of_scalar(x))
